@@ -216,7 +216,7 @@ impl Property for C13 {
         }
     }
     fn strategy(&self, _tier: Tier) -> BoxedStrategy<Self::Gen> {
-        (bf::prog(Mix { raw: 25, strukt: 30, div: 8, wide: 15, big: 2, roam: 8, deep: 12, commented: 3 }), bf::input_bytes(), bf::width(), 0u32..4, proptest::collection::vec(bf::raw_tokens(4, 60), 0..4), any::<u8>()).boxed()
+        (bf::prog(Mix { raw: 25, strukt: 30, div: 8, wide: 15, big: 2, roam: 8, deep: 12, commented: 3, hibits: 2 }), bf::input_bytes(), bf::width(), 0u32..4, proptest::collection::vec(bf::raw_tokens(4, 60), 0..4), any::<u8>()).boxed()
     }
     fn concretize(&self, g: &Self::Gen) -> CompileCase {
         CompileCase { program: g.0.render(), input: g.1.clone(), bits: g.2, level: g.3, others: g.4.iter().map(|t| bf::render_raw(t)).collect(), cross_process: g.5 < 10, family: g.0.family().to_string() }
